@@ -6,6 +6,7 @@ the definitions the theorems of `Theorems/C02.lean` are stated with) evaluated o
 tree sent by the harness, so that the harness can compare them with its own reading of the CEL
 precedence table.  Tree in prefix form, one token per node:
   `I<hex name>`  `N<decimal>`  `P` e  `!<n>` e  `-<n>` e  `B<op>` l r  `?` c t f
+  `A<hex name>` e (`e.name`)  `X` e i (`e[i]`)  `C0` e  `C1` e a  `C2` e a b (calls)
 Answer: `W<0|1> D<nest> <hex of the minimal rendering, tokens separated by one space>`.
 -/
 namespace Rscel.C02
@@ -23,6 +24,13 @@ def T.decWf : (t : T) → Decidable t.Wf
   | .tern _ _ c t f =>
     have := c.decWf; have := t.decWf; have := f.decWf
     inferInstanceAs (Decidable (1 ≤ c.level ∧ 1 ≤ t.level ∧ c.Wf ∧ t.Wf ∧ f.Wf))
+  | .access e _ _ _ => have := e.decWf; inferInstanceAs (Decidable (7 ≤ e.level ∧ e.Wf))
+  | .index e _ _ i => have := e.decWf; have := i.decWf; inferInstanceAs (Decidable (7 ≤ e.level ∧ e.Wf ∧ i.Wf))
+  | .call0 e _ _ => have := e.decWf; inferInstanceAs (Decidable (7 ≤ e.level ∧ e.Wf))
+  | .call1 e _ _ a => have := e.decWf; have := a.decWf; inferInstanceAs (Decidable (7 ≤ e.level ∧ e.Wf ∧ a.Wf))
+  | .call2 e _ _ a _ b =>
+    have := e.decWf; have := a.decWf; have := b.decWf
+    inferInstanceAs (Decidable (7 ≤ e.level ∧ e.Wf ∧ a.Wf ∧ b.Wf))
 
 instance (t : T) : Decidable t.Wf := t.decWf
 
@@ -60,6 +68,24 @@ def readT : Nat → List String → Option (T × List String)
       let (l, r1) ← readT f rest
       let (r, r2) ← readT f r1
       pure (.bin op default l r, r2)
+    | 'A' :: h => do
+      let n ← Wire.strOfHex (String.ofList h)
+      let (e, r) ← readT f rest
+      pure (.access e default default n, r)
+    | ['X'] => do
+      let (e, r1) ← readT f rest
+      let (i, r2) ← readT f r1
+      pure (.index e default default i, r2)
+    | ['C', '0'] => (readT f rest).map fun (e, r) => (.call0 e default default, r)
+    | ['C', '1'] => do
+      let (e, r1) ← readT f rest
+      let (a, r2) ← readT f r1
+      pure (.call1 e default default a, r2)
+    | ['C', '2'] => do
+      let (e, r1) ← readT f rest
+      let (a, r2) ← readT f r1
+      let (b, r3) ← readT f r2
+      pure (.call2 e default default a default b, r3)
     | ['?'] => do
       let (c, r1) ← readT f rest
       let (t, r2) ← readT f r1
